@@ -24,8 +24,8 @@ VERUS_UNITS = {
                     props=['C01', 'C06', 'C02']),
     'U-JSN-V': dict(module='contracts.verus.json_transcode', min_verified=1, timeout=600,
                     props=['C03', 'C04', 'C05', 'C02']),
-    'U-TML-V': dict(module='contracts.verus.toml_output', min_verified=9, timeout=600,
-                    props=['C08', 'C12', 'C11', 'C10', 'C09']),
+    'U-TML-V': dict(module='contracts.verus.toml_output', min_verified=10, timeout=600,
+                    props=['C08', 'C12', 'C11', 'C10', 'C09', 'C02']),
     'U-LIB-V': dict(module='contracts.verus.lib_translate', min_verified=9, timeout=600,
                     props=['C09', 'C03', 'C12', 'C15']),
     'U-MAIN-V': dict(module='contracts.verus.cli_main', min_verified=12, timeout=600,
